@@ -616,7 +616,8 @@ pub fn select(m: &Model, ctx: &mut Ctx, rule: &str) {
     };
     let choice = {
         let mut c = Map::new();
-        c.insert("options".to_string(), Val::List(vec![option("a", ty("Integer")), option("b", ty("Boolean"))]));
+        let tagged = match option("t", ty("Integer")) { Val::Ctor(n, p, mut f) => { f.insert("tag".to_string(), Val::some(Val::Sym("TAG-5".into()))); Val::Ctor(n, p, f) } o => o };
+        c.insert("options".to_string(), Val::List(vec![option("a", ty("Integer")), option("b", ty("Boolean")), tagged]));
         // `b` is an extension addition: X.680 clause 30 selects among *all* alternatives (only COMPONENTS OF stops at the marker)
         c.insert("extensible".to_string(), Val::some(Val::int(1)));
         c.insert("constraints".to_string(), Val::List(vec![]));
@@ -667,6 +668,26 @@ pub fn select(m: &Model, ctx: &mut Ctx, rule: &str) {
             (Ok(Val::Ctor(e, _, _)), None) if e == "Err" => {}
             (Ok(o), _) => ctx.violate(rule, "selected-alternative", &f.file, f.line, &format!("`{} < C` with C ::= CHOICE {{ a INTEGER, ..., b BOOLEAN }}: link_choice_selection_type returns {} — every alternative, before or after the extension marker, can be selected", sel, o.show())),
             (Err(e), _) => ctx.fail_closed(rule, &format!("[{} < C]: {}", sel, e)),
+        }
+    }
+    // the selected alternative's tag belongs to the type the selection denotes (`t [5] INTEGER` selected is `[5] INTEGER`)
+    {
+        ctx.oblige(rule, "t < C (tagged alternative)", true);
+        let mut c = Map::new();
+        c.insert("choice_name".to_string(), Val::Str("C".into()));
+        c.insert("selected_option".to_string(), Val::Str("t".into()));
+        let me = Val::Ctor("ChoiceSelectionType".into(), vec![Val::Ctor("ChoiceSelectionType".into(), vec![], c)], Map::new());
+        let mut env = Env::new();
+        env.insert("self".into(), me);
+        env.insert(tl.clone(), Val::Opaque("tlds".into()));
+        match ev.eval_fn_body(&f.block, &mut env) {
+            Ok(r) => {
+                let kept = env.values().any(|v| v.show().contains("TAG-5")) || r.show().contains("TAG-5");
+                if !kept {
+                    ctx.violate(rule, "selected-alternative:tag-lost", &f.file, f.line, "`t < C` with C ::= CHOICE { .., t [5] INTEGER }: after linking, the tag of the selected alternative is nowhere — neither in the rewritten type nor in anything the function hands back; the selection type denotes `[5] INTEGER`, the bindings declare an untagged INTEGER");
+                }
+            }
+            Err(e) => ctx.fail_closed(rule, &format!("[t < C]: {}", e)),
         }
     }
 }
